@@ -31,6 +31,7 @@ const bytesPrelude = `(declare-sort B 0)
 (declare-fun bat (B Int) Int)
 (declare-fun bstr (Str) B)
 (declare-fun bhex (B) Str)
+(declare-fun bhex2 (Int) B)
 (declare-fun bunhex (Str) B)
 (declare-fun hexok (Str) Bool)
 (declare-fun b58dec (Str) B)
@@ -73,6 +74,7 @@ const bytesAxioms = `(assert (= (blen beps) 0))
 (assert (forall ((a B) (b B) (n Int)) (! (=> (= n (blen a)) (= (bsub (bcat a b) 0 n) a)) :pattern ((bsub (bcat a b) 0 n)))))
 (assert (forall ((a B) (b B) (n Int) (m Int)) (! (=> (and (= n (blen a)) (= m (+ (blen a) (blen b)))) (= (bsub (bcat a b) n m) b)) :pattern ((bsub (bcat a b) n m)))))
 (assert (forall ((a B) (lo Int)) (! (=> (and (<= 0 lo) (<= lo (blen a))) (= (bsub a lo lo) beps)) :pattern ((bsub a lo lo)))))
+(assert (forall ((a B) (lo Int) (hi Int) (i Int) (j Int)) (! (=> (and (<= 0 lo) (<= lo hi) (<= hi (blen a)) (<= 0 i) (<= i j) (<= j (- hi lo))) (= (bsub (bsub a lo hi) i j) (bsub a (+ lo i) (+ lo j)))) :pattern ((bsub (bsub a lo hi) i j)))))
 (assert (= (bzeros 1) (b1 0)))
 (assert (forall ((x Int)) (! (=> (and (<= 0 x) (< x 65536)) (= (ule16 (le16 x)) x)) :pattern ((le16 x)))))
 (assert (forall ((x Int)) (! (=> (and (<= 0 x) (< x 4294967296)) (= (ule32 (le32 x)) x)) :pattern ((le32 x)))))
@@ -174,7 +176,7 @@ func (e *Enc) bytesExpand(h *Heap, s string, max int) string {
 var bOps = map[string]string{
 	"bcat": "B", "b1": "B", "le16": "B", "le32": "B", "le64": "B", "bzeros": "B", "brev": "B", "bsub": "B", "bstr": "B",
 	"bsha256": "B", "bsha256d": "B", "bsha1": "B", "bripemd160": "B", "bhash160": "B",
-	"bunhex": "B", "b58dec": "B", "b58enc": "Str", "hexok": "Bool", "blen": "Int", "ule16": "Int", "ule32": "Int", "ule64": "Int", "bat": "Int", "bhex": "Str",
+	"bunhex": "B", "bhex2": "B", "b58dec": "B", "b58enc": "Str", "hexok": "Bool", "blen": "Int", "ule16": "Int", "ule32": "Int", "ule64": "Int", "bat": "Int", "bhex": "Str",
 }
 
 func isBTerm(s string) bool { return strings.HasPrefix(s, "(b") || s == "beps" }
